@@ -460,3 +460,8 @@ def run(ctx):
     from rules import round6
     round6.share(ctx, "R12.10", "C15", lambda i_: i_["rule"] == "R15.4" and i_["inst"].startswith("load_rank"), "rank:",
                  "a stream that lost the mandatory ovni.nranks key is accepted", 4)
+    ctx.rule("R12.11", "the mandatory library attributes are demanded of every thread stream, not only of the first: "
+             "report_libovni_version fails when ovni.lib.version, ovni.lib.commit or the metadata itself is missing in the "
+             "first, second or third of three threads (9 cases) and succeeds on complete metadata")
+    from rules import round8
+    round8.check_lib_version_mandatory_everywhere(ctx, "R12.11")
